@@ -193,6 +193,8 @@ pub struct CodegenContext {
 
     next_macro_scope_id: usize,
     macro_invocation_depth: usize,
+    /// The files that are currently being emitted (the main file and the chain of imports leading to the current file)
+    import_stack: Vec<PathBuf>,
 
     test_elements: Vec<TestElement>,
 
@@ -225,6 +227,7 @@ pub struct Trace {
 impl CodegenContext {
     fn new(tree: Arc<ParseTree>, options: CodegenOptions) -> Self {
         let analysis = Analysis::new(tree.clone());
+        let import_stack = vec![PathBuf::from(tree.main_file().file.name())];
 
         Self {
             tree,
@@ -241,6 +244,7 @@ impl CodegenContext {
             current_scope_nx: SymbolIndex::new(0),
             next_macro_scope_id: 0,
             macro_invocation_depth: 0,
+            import_stack,
             test_elements: vec![],
             source_map: SourceMap::default(),
         }
@@ -742,6 +746,18 @@ impl CodegenContext {
                 ..
             } => {
                 if let Some(imported_file) = self.tree.try_get_file(resolved_path) {
+                    // A file that (directly or indirectly) imports itself would never stop being emitted
+                    let imported_path = PathBuf::from(imported_file.file.name());
+                    if self.import_stack.contains(&imported_path) {
+                        return Err(Diagnostic::error()
+                            .with_message(format!(
+                                "recursive import of '{}'",
+                                filename.uninterpolated_text()
+                            ))
+                            .with_labels(vec![filename.span().to_label()])
+                            .into());
+                    }
+
                     let imported_file_tokens = imported_file.tokens.clone();
 
                     // Make the filename a definition by itself, allowing the user to follow the definition
@@ -759,13 +775,16 @@ impl CodegenContext {
                         span: filename.span(),
                     });
 
-                    self.with_scope(import_scope, block.as_ref(), |s| {
+                    self.import_stack.push(imported_path);
+                    let result = self.with_scope(import_scope, block.as_ref(), |s| {
                         if let Some(block) = block {
                             s.emit_tokens(&block.inner)?;
                         }
 
                         s.emit_tokens(&imported_file_tokens)
-                    })?;
+                    });
+                    self.import_stack.pop();
+                    result?;
 
                     if let Some(import_nx) =
                         self.symbols.try_index(self.current_scope_nx, import_scope)
